@@ -175,31 +175,38 @@ class SymInt:
     def __ge__(self, o): return SymBool(self.ex, self.term >= _t(o))
 
 
-def explore(run, max_paths=10 ** 9, timeout=10 ** 9):
+def explore(run, max_paths=10 ** 9, timeout=10 ** 9, is_known=None, max_failures=3):
     """run(ex) -> None when the property holds on the path, else a (picklable) description of the failure.
-    Returns dict(paths, failures=[(descr, model_str)], queries, solver_s, secs, complete)."""
+    is_known(descr) -> truthy label when the failure falls into a known-finding region: it is tallied, and the
+    exploration goes on (a known finding must not hide an unknown one behind it).
+    Returns dict(paths, failures=[(descr, model_str)], known={label: [count, first descr]}, queries, solver_s, secs, complete)."""
     ex = Explorer()
     t0 = time.time()
     failures = []
+    known = {}
     complete = False
     while True:
         ex.start_run()
         try:
             out = run(ex)
             if out is not None:
-                m = ex.model()
-                failures.append((out, str(m) if m is not None else ''))
+                label = is_known(out) if is_known else None
+                if label:
+                    known.setdefault(label, [0, out])[0] += 1
+                else:
+                    m = ex.model()
+                    failures.append((out, str(m) if m is not None else ''))
         except Exhausted:
             pass
         ex.end_run()
-        if failures and len(failures) >= 3:
+        if len(failures) >= max_failures:
             break
         if not ex.backtrack():
             complete = True
             break
         if ex.paths >= max_paths or time.time() - t0 > timeout:
             break
-    return dict(paths=ex.paths, failures=failures, queries=ex.queries, solver_s=round(ex.solver_s, 2),
+    return dict(paths=ex.paths, failures=failures, known=known, queries=ex.queries, solver_s=round(ex.solver_s, 2),
                 secs=round(time.time() - t0, 2), complete=complete)
 
 
